@@ -1,12 +1,19 @@
 #!/bin/bash
-# usage: build.sh <outdir> [extra vrewrite flags]  — instruments /repo's current tree and builds the harness
+# usage: build.sh <outdir> [extra vrewrite flags]  — instruments the repository's current tree and builds the harness.
+# The repository is /repo unless VERIF_REPO names another checkout (scratch worktrees for seeded changes).
 set -e
 export GOFLAGS=-mod=mod GOPROXY=off GOSUMDB=off GOTOOLCHAIN=local
 ROOT="$(cd "$(dirname "$0")/.." && pwd)"
 OUT="$1"; shift
 REPO="${VERIF_REPO:-/repo}"
 mkdir -p "$OUT"
-cd "$ROOT/engine"
+SRC="$ROOT/engine"
+if [ "$REPO" != "/repo" ]; then
+  # build from a copy of the engine whose go.mod points at the other checkout
+  rm -rf "$OUT/engine"; cp -r "$ROOT/engine" "$OUT/engine"; SRC="$OUT/engine"
+  (cd "$SRC" && go mod edit -replace "github.com/syndtr/goleveldb=$REPO")
+fi
+cd "$SRC"
 cp "$REPO/go.sum" go.sum 2>/dev/null || true
 go build -o "$OUT/vrewrite" ./cmd/vrewrite
 rm -rf "$OUT/rw"
